@@ -1,7 +1,7 @@
 #!/bin/sh
 # run every registered check of a tier on the current tree, one after the other; summary on stdout
 tier="${1:-quick}"
-cd /verif
+cd "$(dirname "$0")/.."
 for id in C01 C02 C03 C04 C05 C06 C07 C08 C09 C10 C11 C12 C13 C14 C15 C16; do
   s=$(date +%s)
   ./check $id --tier $tier > /tmp/run_all.$id.log 2>&1; rc=$?
